@@ -55,7 +55,7 @@ CogShock == {"Cog19", "Cog20", "Cog21"}
 RiemannFams == {"RiemannIG", "RiemannGen"}
 (* families without a 1-D hydrodynamic scan row (burn times, heat conduction, elasticity): relation / field laws only *)
 BurnFams  == {"Kenamond1", "Kenamond2", "Kenamond3", "DSDcyl"}
-PlainFams == {"Rod1D", "Hutchens1", "RodNH", "Sandwich", "Rectangle", "Hutchens2"}
+PlainFams == {"Rod1D", "Hutchens1", "RodNH", "Sandwich", "Rectangle", "Hutchens2", "CylSandwich"}
 G_Sedov == {<<"interior", "shock", "ambient">>, <<"vacuum", "cont", "interior">>}
 G_Piston == {<<"plastic", "shock", "elastic">>, <<"elastic", "shock", "rest">>}
 (* escape of HE products: product regions are separated by characteristics (continuous); the only jump is the  *)
@@ -90,7 +90,7 @@ Cat == [f \in Families |->
     [] f = "RiemannIG"  -> RowF("gamma2", "euler", "closed", R_Riemann, G_Riemann, FALSE, {"R"})
     [] f = "RiemannGen" -> RowF("additive", "eulersim", "geos",  R_Riemann, G_Riemann, FALSE, {"R"})
     [] f = "RiemannJWL" -> RowF("additive", "eulersim", "geos",  R_Riemann, G_Riemann, FALSE, {"R"})
-    [] f \in PlainFams  -> Row("none",  "none",    IF f = "Mader" THEN "table" ELSE IF f \in {"Rod1D", "Hutchens1", "RodNH", "Sandwich", "Rectangle", "Hutchens2"} THEN "series" ELSE "closed", {"all"}, G_Smooth, FALSE)
+    [] f \in PlainFams  -> Row("none",  "none",    IF f = "Mader" THEN "table" ELSE IF f \in {"Rod1D", "Hutchens1", "RodNH", "Sandwich", "Rectangle", "Hutchens2", "CylSandwich"} THEN "series" ELSE "closed", {"all"}, G_Smooth, FALSE)
     [] f \in CogNone    -> Row("cog",   "cognone", "closed", {"all"}, G_Smooth, FALSE)
     [] f \in CogDiv     -> Row("cog",   "cogdiv",  "closed", {"all"}, G_Smooth, FALSE)
     [] f \in CogFull    -> Row("cog",   "cogfull", "closed", {"all"}, G_Smooth, FALSE)
